@@ -2034,6 +2034,39 @@ def _zero_trip_paths(f, g):
     return out[:256]
 
 
+class _Unknown(Exception):
+    pass
+
+
+def _path_consts_feasible(p, f, path):
+    """False when some two-way decision on the path tests a value that is a constant under the path's own definitions (a flag set before a loop and never toggled on this
+    path) and the path takes the other arm"""
+    from . import pwl
+    pf = sc.PathFlow(f, path)
+    sym = Sym(f, pf)
+
+    def fresh(k):
+        raise _Unknown()
+    for i, b in enumerate(path[:-1]):
+        t = f.blocks[b]["t"]
+        if not t or t["k"] != "Switch":
+            continue
+        sym.at = (i, 1 << 21)
+        sym.memo = {}
+        try:
+            pl = sym.operand(t["o"])
+            v = pwl.Eval(p, {"__fresh__": fresh}).poly(pl)
+        except (_Unknown, pwl.ErrPath, ZeroDivisionError, KeyError):
+            continue
+        finally:
+            sym.at = None
+        listed = dict((val, tb) for val, tb in t["ts"])
+        want = listed.get(v, t.get("else"))
+        if want is not None and path[i + 1] != want:
+            return False
+    return True
+
+
 def sc3(p, res):
     n_takes = 0
     summaries = {}
@@ -2062,6 +2095,8 @@ def sc3(p, res):
                     continue
                 pos = path.index(tb)
                 v = walk_object(p, f, path, pos + 1, lambda rr, tb=tb: any(r[0] == "call" and r[1] == tb and r[2][:1] == ("0",) for r in rr), None, summaries)
+                if v[0] in ("read", "accumulate", "needs-init", "partial") and not _path_consts_feasible(p, f, path):
+                    continue  # the path contradicts a flag it set itself
                 verdicts.add(v[0])
                 if v[0] in ("read", "accumulate", "needs-init", "partial"):
                     witness = v
